@@ -318,4 +318,14 @@ def gen_walk_case(rng):
     if rng.random() < 0.2:
         pos = [0.0, 0.0, 0.0]
     k = rng.choice([1, 1, 1, 2, 2, 3, 4, 7])
+
+    def volume(k, rbuild):     # upper estimate of the number of (bin, shift) pairs walked
+        v = 1
+        for e in cell[:3]:
+            v *= 2 * math.ceil(k * max(1.0, 2 * rbuild / e)) + 1
+        return v
+    while volume(k, rbuild) > 20000 and k > 1:     # the extracted list functions are not tail-recursive
+        k -= 1
+    if volume(k, rbuild) > 20000:
+        rbuild = min(cell[:3])
     return 'walk\t%s %r %s %d' % (dcell_str(cell), rbuild, ' '.join(repr(x) for x in pos), k)
